@@ -370,3 +370,14 @@ void lemma_rs_init(void) {
   VF_P(!VF_VALUES_BY_REF && !VF_NEXT_ERR_BY_REF && !VF_ERRC_ERR_BY_REF && !VF_DONEC_ERR_BY_REF, "lemma C02: the four completion payloads (element, stream error, cleanup errors) are taken by value: they survive the destruction of the child operation state");
   VF_P(!SENDS_DONE, "lemma: the sender declares sends_done == false, matching 'the end of the stream is the value completion'");
 }
+
+/* C13: cleanup(stream) must run to completion exactly once even when the consumer has requested stop: the receivers that
+ * reduce_stream connects cleanup(stream) to answer get_stop_token with a token that can never be stopped */
+enum { TOKEN_UNSTOPPABLE = 1, TOKEN_OF_CONSUMER = 2 };
+void lemma_rs_cleanup_token(void) {
+  int errc = /*@EXPR errc_token*/;
+  int donec = /*@EXPR donec_token*/;
+  VF_P(errc == TOKEN_UNSTOPPABLE, "lemma C13: the error-path cleanup receiver's stop token is unstoppable_token (a stop request on the consumer cannot cancel cleanup(stream))");
+  VF_P(donec == TOKEN_UNSTOPPABLE, "lemma C13: the done/value-path cleanup receiver's stop token is unstoppable_token (a stop request on the consumer cannot cancel cleanup(stream))");
+  VF_CANARY("lemma_rs_cleanup_token reachable");
+}
